@@ -15,7 +15,7 @@ ASSUMPTIONS = [
     "TZ=UTC for this check; naive timestamps at second resolution",
     "only top-level readings (as_list) of the observed member are compared; helper series are internal",
     "cases in which a member alone, or the operations applied to the other members alone, raise are skipped (C09 / C14 own those)",
-    "names differ through parameters or name_suffix; arbitrary fullname_override values are not generated",
+    "names differ through parameters or name_suffix; fullname_override is generated only for names equal to a composite's internal registry aliases (signal, dx, ST_data, ...)",
 ]
 PARTIAL = "proved for all kinds: operations aimed at b never touch a; presence/order independence of a's readings given disjoint names and reads (TreeOK, decidable); a introduced later by add_indicator: presence_FULL"
 
